@@ -22,6 +22,38 @@ def gen_scenario(seed, tier="quick", opts=None):
         seed, tier, opts, always=("bad",), fault_kinds=("drain", "interrupt", "kill_step"),
         defer_caps=(1, 2, 100),
     )
+    # A shape in which several causes of "pending" meet: one step asks for more units of a
+    # resource than exist, another one asks for an affordable amount of the same resource and
+    # waits for a producer that fails (keep-going, so the build goes on and reports both).
+    import random
+
+    from sim.chooser import derive_seed
+    from sim.gen import project_outputs
+
+    rng = random.Random(derive_seed(seed, "c19"))
+    if rng.random() < 0.25:
+        k = rng.randrange(len(sc["phases"]))
+        proj = sc["phases"][k]["project"]
+        _outs, _vols, prod = project_outputs(proj)
+        by_name = {st["name"]: st for st in proj["steps"]}
+        consumers = []
+        for st in proj["steps"]:
+            for verb, arg in st["acts"]:
+                if verb == "read" and arg in prod and prod[arg] != st["name"]:
+                    consumers.append((st, by_name[prod[arg]]))
+        others = [st for st in proj["steps"]]
+        if consumers and len(others) >= 3:
+            b, p = rng.choice(consumers)
+            a = rng.choice([st for st in others if st is not b and st is not p])
+            res = rng.choice(["cpu", "gpu"])
+            a["resources"] = {res: 9}
+            b["resources"] = {res: 1}
+            if not any(x[0] == "exit" for x in p["acts"]):
+                p["acts"].insert(0, ["exit", 1])
+            cfg = sc["phases"][k]["cfg"]
+            cfg["keep_going"] = True
+            cfg.setdefault("available_resources", "cpu:2,gpu:2")
+            sc["phases"][k]["edits"] = list(sc["phases"][k]["edits"]) + [f"{a['name']} wants 9 {res}, {b['name']} 1 {res} behind failing {p['name']}"]
     sc["check"] = PROPERTY
     return sc
 
